@@ -50,7 +50,10 @@ def gen_cases(ctx):
                 nrep = 1 if ctx.tier == "quick" else 3
                 for rep in range(nrep):
                     pl = rng.choice(["inpkg", "inpkg-test"]) if inpkg else rng.choice(["xtest", "outpkg", "outpkg-collide"])
-                    cases.append({"kind": "catalogue", "inpkg": inpkg, "genseed": ctx.seed * 31 + inpkg, "idx": ch, "template": t,
+                    split = None
+                    if (ci + rep) % 3 == 0:
+                        split = {"opt": "unroll-variadic" if t == "testify" else ["skip-ensure", "stub-impl", "with-resets"][(ci // 3) % 3], "val": bool((ci // 3) % 2), "level": ["pkg", "root"][(ci // 6) % 2]}
+                    cases.append({"kind": "catalogue", "td_split": split, "inpkg": inpkg, "genseed": ctx.seed * 31 + inpkg, "idx": ch, "template": t,
                                   "formatter": ["goimports", "gofmt", "noop"][(ci + rep + (t == "matryer")) % 3], "placement": pl, "td": td_options(rng, t),
                                   "gomod": rng.choice(["plain"] * 6 + list(mockgen.GOMOD_SPELLINGS)),
                                   "srckind": rng.choice(["ordinary"] * 5 + (["main", "name-ne-dir"] if inpkg else ["name-ne-dir"]))})
@@ -89,6 +92,16 @@ def eval_case(ctx, case):
         v.tags = ["replace-type"] + [t for t in v.tags if t.startswith("formatter=") or t.startswith("placement=")]
         return [(case, v)]
     ifaces = case_ifaces(case)
+    if case.get("td_split"):
+        # one option set at root or package level and overridden with the opposite value on every second interface
+        sp = case["td_split"]
+        case = dict(case, td=dict(case.get("td") or {}))
+        case["td_by_name"] = {i["name"]: {sp["opt"]: not sp["val"]} for k, i in enumerate(ifaces) if k % 2 == 1}
+        if sp["level"] == "pkg":
+            case["td"].pop(sp["opt"], None)
+            case["td_pkg"] = {sp["opt"]: sp["val"]}
+        else:
+            case["td"][sp["opt"]] = sp["val"]
     if case.get("only"):
         ifaces = [i for i in ifaces if i["name"] in case["only"]]
     root, info = mockgen.build_module(ctx, case, ifaces)
@@ -97,7 +110,7 @@ def eval_case(ctx, case):
         return [(case, Verdict.inconclusive("generated package rejected by the toolchain: " + (pre.err + pre.out)[-600:]))]
     ok, failures, r = mockgen.run_generation(ctx, root, info, case, ifaces)
     tags = ["template=" + case["template"], "formatter=" + case["formatter"], "placement=" + case["placement"], "gomod=" + case.get("gomod", "plain"),
-            "srckind=" + case.get("srckind", "ordinary")] + ["td." + k for k in (case.get("td") or {})]
+            "srckind=" + case.get("srckind", "ordinary")] + ["td." + k for k in (case.get("td") or {})] + (["td-split=" + case["td_split"]["opt"]] if case.get("td_split") else [])
     verdicts = []
     by_name = {i["name"]: i for i in ifaces}
     for name, ri in failures.items():
